@@ -112,8 +112,21 @@ class LoftedShape(Shape, abc.ABC, Generic[SketchT]):
         if axis == 2:
             self.operations[0].chop(2, **kwargs)
         else:
+            # chops hold indexes of the sketch's faces; operations are ordered
+            # by the sketch's grid, which is not necessarily the order of faces
+            faces = self.sketch_1.faces
+
             for index in self.sketch_1.chops[axis]:
-                self.operations[index].chop(axis, **kwargs)
+                self._get_operation(faces[index]).chop(axis, **kwargs)
+
+    def _get_operation(self, face) -> Loft:
+        """Returns the operation that was created from given face of the first sketch"""
+        for i, row in enumerate(self.sketch_1.grid):
+            for j, grid_face in enumerate(row):
+                if grid_face is face:
+                    return self.lofts[i][j]
+
+        raise ShapeCreationError("Face is not a part of this shape's sketch")
 
 
 class ExtrudedShape(LoftedShape):
